@@ -16,9 +16,13 @@ REQUESTS = {
     'multi': ('GET', '/multi/a/b/c'), 'nbfall': ('GET', '/fall/q'),
     # one path, two method-restricted routes, and a method neither admits
     'get2': ('GET', '/two/3'), 'post2': ('POST', '/two/4'), 'put2': ('PUT', '/two/5'),
+    # two plain 404s that differ only in the negotiated format of the error page
+    'missing_html': ('GET', '/nope/h', {'Accept': 'text/html'}), 'missing_json': ('GET', '/nope/j', {'Accept': 'application/json'}),
+    'boom_xml': ('GET', '/boom/8', {'Accept': 'application/xml'}),
 }
 PAIRS_QUICK = [('item1', 'item2'), ('item1', 'boom'), ('post', 'wrong'), ('nb', 'missing'), ('redir', 'item2'), ('ctx', 'multi'), ('nbfall', 'item1'),
-               ('post2', 'put2'), ('get2', 'post2'), ('redir', 'missing'), ('item1', 'wrong')]
+               ('post2', 'put2'), ('get2', 'post2'), ('redir', 'missing'), ('item1', 'wrong'),
+               ('missing_html', 'missing_json'), ('missing_json', 'missing_html'), ('boom', 'boom_xml'), ('missing', 'missing_json')]
 
 
 def build_app():
@@ -73,12 +77,14 @@ def build_app():
 
 def serve(app, name):
     from harness import wsgi
-    method, path = REQUESTS[name]
-    r = wsgi.call(app, wsgi.environ(path, method=method))
+    method, path = REQUESTS[name][:2]
+    headers = REQUESTS[name][2] if len(REQUESTS[name]) > 2 else None
+    r = wsgi.call(app, wsgi.environ(path, method=method, headers=headers))
     body = r.body.decode('utf8', 'replace')
     if r.code == 500:
         body = body[:40]
-    return {'status': r.code, 'body': body, 'loc': r.header('Location'), 'tok': r.header('X-Tok'), 'rid': r.header('X-Req-Id'),
+    return {'status': r.code, 'body': body, 'ctype': r.header('Content-Type'), 'loc': r.header('Location'), 'tok': r.header('X-Tok'),
+            'rid': r.header('X-Req-Id'),
             'exc': type(r.exc).__name__ if r.exc else None}
 
 
